@@ -4,7 +4,7 @@ From Coq Require Import NArith List Bool.
 From Falcon Require Import Base.Res Graph.NMap Graph.NMapFacts Graph.Graph Graph.GraphInv Graph.Algo Graph.Spec
   Graph.Oracle Graph.OracleProofs Graph.ReachProofs Graph.C11Check Graph.SemiNca3 Graph.Small3 Graph.DomTheory
   Graph.OrderProofs Graph.LoopProofs Graph.BackEdges Graph.PreOrderProofs Graph.DomTreeProofs Graph.ClosureTotal Graph.IdomExists Graph.PreOrderDfs
-  Graph.DomModel Graph.FrontierModel Graph.Unreachable.
+  Graph.DomModel Graph.FrontierModel Graph.Unreachable Graph.TopoProofs Graph.AcyclicProofs.
 Import ListNotations.
 Local Open Scope N_scope.
 
@@ -285,3 +285,24 @@ Theorem pre_order_search_order : forall (V E : Type) (HV : Vertex V) (HE : Edge 
   compute_pre_order g r = Ok l -> exists o, l = rev o /\ PFr g r o.
 Proof. intros V E HV HE g r l. exact (PreOrderDfs.compute_pre_order_parent g r l). Qed.
 Print Assumptions pre_order_search_order.
+
+(* [U] topo_correct + topo_error_iff_cycle for the MODEL function: either Ok l with l a topological order of all
+   vertices (and the graph has no cycle), or Err (Custom) and the graph has a cycle *)
+Theorem topo_correct : forall (V E : Type) (HV : Vertex V) (HE : Edge E) (g : graph V E),
+  GraphInv.graph_inv g ->
+  (exists l, compute_topological_ordering g = Ok l /\ topo_order (edge_keys g) (vertex_indices g) l /\
+             ~ has_cycle (edge_keys g)) \/
+  (compute_topological_ordering g = Err ECustom /\ has_cycle (edge_keys g)).
+Proof. intros V E HV HE g Hgi. exact (TopoProofs.compute_topological_ordering_correct g Hgi). Qed.
+Print Assumptions topo_correct.
+Theorem topo_error_iff_cycle : forall (V E : Type) (HV : Vertex V) (HE : Edge E) (g : graph V E),
+  GraphInv.graph_inv g -> (compute_topological_ordering g = Err ECustom <-> has_cycle (edge_keys g)).
+Proof. intros V E HV HE g Hgi. exact (TopoProofs.topo_error_iff_cycle g Hgi). Qed.
+Print Assumptions topo_error_iff_cycle.
+
+(* [U] is_acyclic_iff for the MODEL function *)
+Theorem is_acyclic_iff : forall (V E : Type) (HV : Vertex V) (HE : Edge E) (g : graph V E) root,
+  GraphInv.graph_inv g -> has_vertex g root = true ->
+  exists b, is_acyclic g root = Ok b /\ (b = true <-> ~ cyclic_from (edge_keys g) root).
+Proof. intros V E HV HE g root Hgi. exact (AcyclicProofs.is_acyclic_correct g Hgi root). Qed.
+Print Assumptions is_acyclic_iff.
